@@ -8,6 +8,7 @@ import (
 	"github.com/orda-io/orda/client/pkg/model"
 	"github.com/orda-io/orda/client/pkg/operations"
 	"github.com/orda-io/orda/client/pkg/verifhook"
+	"sync"
 )
 
 // WiredDatatype implements the datatype features related to the synchronization with Orda server
@@ -16,6 +17,9 @@ type WiredDatatype struct {
 	wire        iface.Wire
 	checkPoint  *model.CheckPoint
 	localBuffer []*model.Operation
+	// bufferMutex guards localBuffer: a pack is built (CreatePushPullPack, by a sync) while a transaction of
+	// another goroutine is being queued (DeliverTransaction); the pack has to see the whole unit or nothing of it.
+	bufferMutex sync.Mutex
 }
 
 // NewWiredDatatype creates a new wiredDatatype
@@ -30,7 +34,9 @@ func NewWiredDatatype(w iface.Wire, t *TransactionDatatype) *WiredDatatype {
 
 // ResetWired resets the data related to WiredDatatype
 func (its *WiredDatatype) ResetWired() {
+	its.bufferMutex.Lock()
 	its.localBuffer = make([]*model.Operation, 0, constants.OperationBufferSize)
+	its.bufferMutex.Unlock()
 	its.opID.Seq = 0
 }
 
@@ -99,7 +105,8 @@ func (its *WiredDatatype) CreatePushPullPack() *model.PushPullPack {
 }
 
 func (its *WiredDatatype) getModelOperations(cseq uint64) []*model.Operation {
-
+	its.bufferMutex.Lock()
+	defer its.bufferMutex.Unlock()
 	if len(its.localBuffer) == 0 {
 		return []*model.Operation{}
 	}
@@ -209,7 +216,9 @@ func (its *WiredDatatype) updateStateOfDatatype(
 		model.StateOfDatatype_DUE_TO_SUBSCRIBE,
 		model.StateOfDatatype_DUE_TO_SUBSCRIBE_CREATE:
 		if its.state == model.StateOfDatatype_DUE_TO_SUBSCRIBE_CREATE && ppp.GetPushPullPackOption().HasSubscribeBit() {
+			its.bufferMutex.Lock()
 			its.localBuffer = make([]*model.Operation, 0, constants.OperationBufferSize)
+			its.bufferMutex.Unlock()
 			newOpID := model.NewOperationIDWithCUID(its.opID.CUID)
 			newOpID.Lamport = 1 // Because of SnapshotOperation
 			newOpID.Seq = its.opID.Seq
@@ -287,9 +296,13 @@ func (its *WiredDatatype) callHandlers(
 // DeliverTransaction delivers the transaction if needed
 func (its *WiredDatatype) DeliverTransaction(transaction []iface.Operation) {
 
+	modelOps := make([]*model.Operation, 0, len(transaction))
 	for _, op := range transaction {
-		its.localBuffer = append(its.localBuffer, op.ToModelOperation())
+		modelOps = append(modelOps, op.ToModelOperation())
 	}
+	its.bufferMutex.Lock()
+	its.localBuffer = append(its.localBuffer, modelOps...) // the whole unit at once
+	its.bufferMutex.Unlock()
 	if its.wire == nil && its.ctx.Client.SyncType != model.SyncType_REALTIME {
 		return
 	}
